@@ -317,7 +317,7 @@ def c03_class(sc):
     return None
 
 
-def c03_conn_class(sc, dst, key):
+def c03_conn_class(sc, dst, key, nonmono=None):
     """Known-finding class of ONE input key (dest eid, dest attr, src sim, src eid) of simulator `dst`: the findings are
     properties of a connection, so a violation is only attributed to a finding if the offending keys belong to
     connections that have the finding's feature."""
@@ -326,8 +326,8 @@ def c03_conn_class(sc, dst, key):
     for c in conns:
         if not is_persistent(sims[c["src"]]["type"], c["sattr"]) and c["init"]:
             return "C03-event-with-init"
-    if sc.get("future_outputs") and any(sims[c["src"]]["type"] != "time-based" for c in conns):
-        return "C03-nonmonotone-output-times"
+    if sc.get("future_outputs") and any(sims[c["src"]]["type"] != "time-based" and (nonmono is None or c["src"] in nonmono) for c in conns):
+        return "C03-nonmonotone-output-times"   # only sources whose output times actually went back in this run
     if sc.get("sparse_persistent") and any(is_persistent(sims[c["src"]]["type"], c["sattr"]) for c in conns):
         return "C03-sparse-persistent"      # not a finding: the simulator breaks its contract; nothing is claimed for this key
     if sc["cache"]:
@@ -349,11 +349,16 @@ def mon_c03(sc, controller):
     order = 0
     last_begin = {i: None for i in range(n)}
     delivered = set()   # (conn index, production order) of delivered events
+    max_out = {}        # source sim -> largest output time so far
+    nonmono = set()     # sources that reported an output time earlier than a previous one
     for idx, e in enumerate(controller.full_trace):
         if e[0] == "got":
             i, t, d = sid_i(e[1]), tuple(e[2]), e[3]
             ot = d.get("time", t[0])
             out_tt = t if ot == t[0] else (ot,) + (0,) * (len(t) - 1)
+            if i in max_out and out_tt < max_out[i]:
+                nonmono.add(i)
+            max_out[i] = max(max_out.get(i, out_tt), out_tt)
             for eid, attrs in d.items():
                 if eid == "time":
                     continue
@@ -398,7 +403,7 @@ def mon_c03(sc, controller):
                 extra = {k: v for k, v in got_c.items() if k not in want}
                 vio.append({"law": "step inputs = most recent due persistent values + each due event exactly once", "sim": i, "t": t,
                             "missing": str(missing), "wrong(got,want)": str(wrong), "unexpected": str(extra), "event": idx,
-                            "keys": sorted(set(missing) | set(wrong) | set(extra))})
+                            "keys": sorted(set(missing) | set(wrong) | set(extra)), "nonmono": sorted(nonmono)})
             last_begin[i] = t
     return vio
 
